@@ -25,3 +25,9 @@ func TestSelfPDF417(t *testing.T) {
 		t.Fatal(err)
 	}
 }
+
+func TestSelfAztec(t *testing.T) {
+	if err := SelfTestAztec(); err != nil {
+		t.Fatal(err)
+	}
+}
